@@ -134,12 +134,14 @@ def native_rewrites(g, workdir):
         for x in opts.get('noverride', '').split(';'):
             if x:
                 f, tgt, stub = x.split(':')
-                per_file.setdefault(f, {}).setdefault((tgt, stub), []).append(root)
+                per_file.setdefault(f, {}).setdefault(tgt, {}).setdefault(stub, []).append(root)
     out = {}
     for f, m in per_file.items():
         src = os.path.join(g.absdir, f)
         dst = os.path.join(workdir, g.key + '_rw_' + f.replace('/', '_'))
-        spec = ';'.join('%s=%s@%s' % (tgt, stub, '|'.join(sorted(roots))) for (tgt, stub), roots in sorted(m.items()))
+        spec = ';'.join('%s=%s' % (tgt, ','.join('%s@%s' % (stub, '|'.join(sorted(roots)))
+                                               for stub, roots in sorted(stubs.items())))
+                        for tgt, stubs in sorted(m.items()))
         r = subprocess.run([EXPORTER, '-rewrite', src, '-spec', spec, '-o', dst], capture_output=True, text=True)
         if r.returncode:
             raise RuntimeError('native override rewrite failed: ' + r.stderr)
